@@ -422,29 +422,129 @@ def directed_enf_script():
     return lines, meta
 
 
+def so3_scales(sp, scale=1.0):
+    """for every SO(3) leaf: the factor by which the default (compound) sampler scales a distance before it reaches the
+    SO(3) sampler (product of weight importances; 0 if a `weight <= eps -> uniform` branch is on the way)"""
+    k = sp[0]
+    if k == "so3":
+        return [scale]
+    if k == "se3":
+        return [scale * 0.5]
+    if k == "wrap":
+        return so3_scales(sp[1], scale)
+    if k == "cmp":
+        ws = 0.0
+        for w, _ in sp[1]:
+            ws += w
+        out = []
+        for w, sub in sp[1]:
+            imp = 1.0 if ws < EPS else w / ws
+            out += so3_scales(sub, scale * imp if imp > EPS else 0.0)
+        return out
+    return []
+
+
+def moderate_radii(r, sp, sub=None):
+    """radii for which the SO(3) samplers take their axis-angle / tangent-space branch (near: d < pi/4, Gaussian:
+    2*sigma/sqrt(3) <= 1.17) instead of falling back to uniform sampling: absolute values in the band and values
+    divided by the compound importance on the way to an SO(3) leaf"""
+    out = [r.choice([0.02, 0.05, 0.1, 0.3, 0.5, 0.7, 1.0, 2.0])]
+    target = sp
+    pre = 1.0
+    if sub is not None:
+        ws = 0.0
+        for w, _ in sp[1]:
+            ws += w
+        pre = sp[1][sub][0] / ws if ws > 0 else 1.0
+        target = sp[1][sub][1]
+    sc = [x * pre for x in so3_scales(target) if x * pre > 1e-12]
+    if sc:
+        out.append(r.choice([0.05, 0.2, 0.5, 0.75]) / r.choice(sc))
+    return out
+
+
+def multibody_space(r):
+    """spaces whose sampled subspace contains SO(3): SE(3) (rotation part or the whole body), several SE(3) / SO(3) bodies"""
+    def se3():
+        rs = [(lo, hi if lo < hi else lo + 1.0) for lo, hi, _ in (gen_range(r, False) for _ in range(3))]
+        return ("se3", [x[0] for x in rs], [x[1] for x in rs])
+    c = r.below(5)
+    if c == 0:
+        return se3()                                                  # sub 1 = its SO(3) part
+    if c == 1:
+        return ("cmp", [(gen_weight(r) or 1.0, se3()) for _ in range(r.range(2, 3))])      # multi-body
+    if c == 2:
+        return ("cmp", [(1.0, ("so3",)), (r.choice([1.0, 0.5, 2.0]), ("so3",)), (1.0, ("rv", [-1.0], [1.0]))])
+    if c == 3:
+        return ("cmp", [(1.0, ("cmp", [(1.0, ("so3",)), (1.0, ("so2",))])), (1.0, se3())])
+    return ("cmp", [(r.choice([1.0, 3.0]), ("wrap", ("so3",))), (1.0, gen_leaf_space(r))])
+
+
 def gen_samp_script(r, nconf, ndraws, counts, seed):
     lines = ["spacebounds seed=%d" % seed]
     meta = []
     while len(meta) < nconf:
-        sp = gen_space(r)
+        sp = multibody_space(r) if r.chance(1, 4) else gen_space(r)
         if not legal(sp):
             continue
         ext = extent(sp)
         centre = state_tokens(r, sp, False)
+        ncomp = 2 if sp[0] == "se3" else len(sp[1]) if sp[0] == "cmp" else 0
         for kind in ("u", "n", "g"):
             radii = [0.0] if kind == "u" else [0.0, ext * r.unit() * 0.3, ext * r.choice([1.0, 3.0]), ext * r.choice([50.0, 1000.0])]
-            for d in radii:
+            subs = [None] * len(radii)
+            if kind != "u":
+                # the moderate band (matters for SO(3)): once through the default sampler, once through a subspace sampler
+                for d in moderate_radii(r, sp):
+                    radii.append(d)
+                    subs.append(None)
+                if ncomp:
+                    k = r.below(ncomp)
+                    for d in (moderate_radii(r, sp, k) if sp[0] == "cmp" else [r.choice([0.05, 0.2, 0.5, 0.75]) * 2, 0.3]):
+                        radii.append(d)
+                        subs.append(k)
+            for d, sub in zip(radii, subs):
                 which = "d"
-                if sp[0] == "cmp" and sp[1] and r.chance(1, 3):
-                    which = "sub %d" % r.below(len(sp[1]))
+                if sub is not None:
+                    which = "sub %d" % sub
+                elif ncomp and r.chance(1, 3):
+                    which = "sub %d" % r.below(ncomp)
+                if which != "d":
                     counts("samp:subspace-sampler")
+                    comp = sp[1][int(which.split()[1])][1] if sp[0] == "cmp" else (("so3",) if which == "sub 1" else ("rv",))
+                    if comp[0] == "so3" or (comp[0] != "rv" and has_so3(comp)):
+                        counts("samp:subspace-sampler-over-so3")
                 if any(lf[0] == "d" for lf in leaves(sp)):
                     d = min(d, 1e6)
                 lines.append(" ".join(["samp", kind, which, str(ndraws), fb(d)] + sp_tokens(sp) + centre))
                 meta.append({"space": sp, "kind": kind, "which": which, "dist": d, "centre": centre})
                 counts("samp:" + kind)
                 counts("samp-space:" + sp[0])
-                counts("samp-radius:" + ("0" if d == 0 else "<extent" if d < ext else ">>extent" if d > 10 * ext else ">=extent"))
+                band = "0" if d == 0 else "<extent" if d < ext else ">>extent" if d > 10 * ext else ">=extent"
+                counts("samp-radius:" + band)
+                if has_so3(sp) and kind != "u" and 0 < d:
+                    counts("samp-so3-radius:" + ("moderate(<=2)" if d <= 2 else "large"))
+    return lines, meta
+
+
+def gen_alias_script(r, nconf, ndraws, counts, seed):
+    """default samplers called with state == near (same pointer)"""
+    lines = ["spacebounds seed=%d" % seed]
+    meta = []
+    while len(meta) < nconf:
+        sp = multibody_space(r) if r.chance(1, 4) else gen_space(r)
+        if not legal(sp) or not leaves(sp):
+            continue
+        ext = extent(sp)
+        centre = state_tokens(r, sp, False)
+        for kind in ("n", "g"):
+            for d in [ext * r.choice([0.0, 0.1, 1.0, 100.0])] + moderate_radii(r, sp):
+                if any(lf[0] == "d" for lf in leaves(sp)):
+                    d = min(d, 1e6)
+                lines.append(" ".join(["alias", kind, str(ndraws), fb(d)] + sp_tokens(sp) + centre))
+                meta.append({"space": sp, "kind": kind, "dist": d})
+                counts("alias:" + kind)
+                counts("alias-space:" + sp[0])
     return lines, meta
 
 
@@ -794,6 +894,61 @@ def run_samp(ck, hbin, lines, meta, pre=None):
     return ok
 
 
+def run_alias(ck, hbin, lines, meta, pre=None):
+    """sampleUniformNear / sampleGaussian with state == near must still give an in-bounds state"""
+    impl, rc, err = pre if pre is not None else ck.run_bin(hbin, lines)
+    impl = impl or []
+    ck.traces_validated += 1
+    ok = True
+    nrep = 0
+    if rc != 0:
+        ck.report({"engine": "spacebounds", "clause": "harness-exit", "what": "harness exited with %s on alias runs" % rc},
+                  script=lines, observed=(err or "")[-2000:], engine="spacebounds")
+        return False
+    for i, m in enumerate(meta):
+        line = impl[i] if i < len(impl) else "<missing>"
+        h = kv(line)
+        ck.case(("alias", lines[0], lines[i + 1]), True)
+        ck.count("alias-outputs-checked", int(h.get("n", 0)))
+        if line == "<missing>" or h.get("bad") != "0":
+            kinds = sorted(set(lf[0] for lf in leaves(m["space"])))
+            # which leaf is out of bounds in the first bad state (so that a finding about one leaf kind cannot hide another)
+            culprit = "?"
+            try:
+                toks = line.split("first=", 1)[1].split()
+                bad_kinds = set()
+                for lf, vals in split_leaf_tokens(m["space"], toks):
+                    if lf[0] == "q":
+                        n2 = sum(bf(x) ** 2 for x in vals)
+                        if abs(math.sqrt(n2) - 1.0) >= 1e-9:
+                            bad_kinds.add("q")
+                    elif lf[0] == "a":
+                        if not (-PI <= bf(vals[0]) < PI):
+                            bad_kinds.add("a")
+                    elif lf[0] == "r":
+                        if bf(vals[0]) - EPS > lf[2] or bf(vals[0]) + EPS < lf[1]:
+                            bad_kinds.add("r")
+                    elif lf[0] == "t":
+                        if lf[1] and not (lf[2] - EPS <= bf(vals[0]) <= lf[3] + EPS):
+                            bad_kinds.add("t")
+                    elif lf[0] == "d":
+                        if not (lf[1] <= int(vals[0]) <= lf[2]):
+                            bad_kinds.add("d")
+                culprit = "".join(sorted(bad_kinds)) or "?"
+            except Exception:
+                pass
+            rec = {"engine": "spacebounds", "op": "alias", "clause": "sampler-alias-inbounds", "sampler": m["kind"],
+                   "culprit": culprit, "leaf_kinds": "".join(kinds),
+                   "what": "a default sampler called with state == near returned an out-of-bounds state: " + line[:300]}
+            if ck.report(rec, script=[lines[0], lines[i + 1]], observed=[line], engine="spacebounds"):
+                ck.log("property failure: sampler %s with state == near left the bounds (culprit leaf %s; %s)" % (m["kind"], culprit, line[:100]))
+                ok = False
+                nrep += 1
+                if nrep >= 3:
+                    break
+    return ok
+
+
 def run_rebound(ck, hbin, lines, meta, pre=None):
     """samplers allocated under earlier bounds must follow the CURRENT bounds of their space"""
     impl, rc, err = pre if pre is not None else ck.run_bin(hbin, lines)
@@ -998,6 +1153,20 @@ def run(ck):
         if len(ck.violations) >= 3:
             break
 
+    # (b'') alias-safety probe: state == near
+    nscripts, nconf, ndraws = (4, 25, 2000) if quick else (12, 50, 10000)
+    jobs = []
+    for i in range(nscripts):
+        r = ck.rng.fork("alias%d" % i)
+        jobs.append(gen_alias_script(r, nconf, ndraws, counts, seed=ck.seed * 1000 + 900 + i))
+    with ThreadPoolExecutor(max_workers=12) as ex:
+        res = list(ex.map(lambda j: ck.run_bin(hbin, j[0]), jobs))
+    for (lines, meta), pre in zip(jobs, res):
+        run_alias(ck, hbin, lines, meta, pre=pre)
+        ck.count("scripts:alias")
+        if len(ck.violations) >= 3:
+            break
+
     # (b') bounds changed after the sampler objects were allocated
     nscripts, nconf, ndraws = (8, 40, 2000) if quick else (24, 80, 10000)
     jobs = []
@@ -1050,7 +1219,7 @@ def replay(ck, data):
             if mo != o:
                 print("   model: %s" % mo)
                 bad = True
-        if ln.startswith("samp") and "bad=0" not in o:
+        if ln.startswith(("samp", "alias")) and "bad=0" not in o:
             bad = True
         if ln.startswith("rebound") and not o.startswith("skip"):
             b = kv(o).get("bad", "1")
